@@ -3,4 +3,4 @@
 From Coq Require Extraction.
 From Coq Require Import ExtrOcamlBasic.
 From Verif Require Import Word Conc Replay RootQ RootQR.
-Extraction "Extract/rootq_model.ml" conform abstract start_pc replay.
+Extraction "Extract/rootq_model.ml" conform abstract start_pc replay rq_try init_state.
